@@ -16,6 +16,8 @@ import traceback
 
 ROOT = os.path.dirname(os.path.dirname(os.path.abspath(__file__)))
 REPO = os.environ.get("ROPE_REPO", "/repo")
+# evidence and replay files of a run against a scratch tree (seeded changes) go elsewhere
+OUT_ROOT = os.environ.get("VERIF_OUT", ROOT)
 PY = "/venv/bin/python"
 
 
@@ -146,7 +148,7 @@ def check(prop, tier, seed, only=None, jobs=None, budget=None, max_wall=None):
             inconclusive.append("unsupported operations in %s: %s" % (r["instance"], r["unsupported_sites"]))
         if not r["exhaustive"] and not r.get("harness_error"):
             inconclusive.append("instance %s did not finish within its budget (%ss)" % (r["instance"], seconds))
-    rdir = os.path.join(ROOT, "replays", prop)
+    rdir = os.path.join(OUT_ROOT, "replays", prop)
     os.makedirs(rdir, exist_ok=True)
     groups = {}
     for r in results:
@@ -162,28 +164,36 @@ def check(prop, tier, seed, only=None, jobs=None, budget=None, max_wall=None):
     nonrepro = []
     replayed = 0
     max_per_group = getattr(mod, "REPLAYS_PER_GROUP", 2)
+    todo = []
     for key, fs in sorted(groups.items()):
         for f in fs[:max_per_group]:
             blob = json.dumps(f, sort_keys=True)
             path = os.path.join(rdir, hashlib.sha1(blob.encode()).hexdigest()[:12] + ".json")
             with open(path, "w") as fh:
                 fh.write(blob)
-            res = run_replay(path)
-            replayed += 1
-            if res["reproduced"] is None:
-                inconclusive.append("replay error for %s: %s" % (path, res["detail"]))
-                continue
-            if not res["reproduced"]:
-                nonrepro.append((path, f["kind"], res["detail"]))
+            todo.append((path, f))
+    # every replay is its own interpreter: run them side by side
+    from concurrent.futures import ThreadPoolExecutor
+
+    with ThreadPoolExecutor(max_workers=jobs) as ex:
+        replies = list(ex.map(lambda pf: run_replay(pf[0]), todo))
+    for (path, f), res in zip(todo, replies):
+        replayed += 1
+        if res["reproduced"] is None:
+            inconclusive.append("replay error for %s: %s" % (path, res["detail"]))
+            continue
+        if not res["reproduced"]:
+            nonrepro.append((path, f["kind"], res["detail"]))
+            os.remove(path)
+            continue
+        sig = res.get("signature") or f["kind"]
+        kf = finding_for(prop, sig, findings)
+        if kf is not None:
+            known.setdefault(kf["id"], (kf, sig))
+            if os.path.exists(path):
                 os.remove(path)
-                continue
-            sig = res.get("signature") or f["kind"]
-            kf = finding_for(prop, sig, findings)
-            if kf is not None:
-                known.setdefault(kf["id"], (kf, sig))
-                os.remove(path)
-            else:
-                violations.append((path, sig, res["detail"]))
+        else:
+            violations.append((path, sig, res["detail"]))
     for path, kind, detail in nonrepro:
         inconclusive.append("counterexample (%s) did not reproduce on un-instrumented rope: %s" % (kind, detail))
     # --- evidence
@@ -243,8 +253,8 @@ def check(prop, tier, seed, only=None, jobs=None, budget=None, max_wall=None):
     extra = getattr(mod, "extra_evidence", None)
     if extra:
         ev["coverage"].update(extra(results))
-    os.makedirs(os.path.join(ROOT, "evidence"), exist_ok=True)
-    with open(os.path.join(ROOT, "evidence", prop + ".json"), "w") as fh:
+    os.makedirs(os.path.join(OUT_ROOT, "evidence"), exist_ok=True)
+    with open(os.path.join(OUT_ROOT, "evidence", prop + ".json"), "w") as fh:
         json.dump(ev, fh, indent=1, sort_keys=True)
     # --- report
     print("%s tier=%s instances=%d paths=%d holding=%d failing=%d vacuous=%d solver_queries=%d solver_s=%.1f wall=%.1fs" % (
